@@ -45,6 +45,17 @@ def comps_of(text):
     return [[c if ' ' <= c else '^%02x' % ord(c) for c in comp] for comp in text.split('/')]
 
 
+def note_divergences(ctx, recs, what):
+    """directories inside a bucket's own directory that the model does not expect (or expects and does not find): the property is about
+    objects, not about directories, so this is a MODEL-DIVERGENCE, never a violation"""
+    divs = [x for x in recs if x.get('kind') == 'divergence']
+    if divs:
+        ctx.cov['divergences'] += len(divs)
+        d = divs[0]
+        ctx.warn('MODEL-DIVERGENCE: %d steps leave directories inside a bucket that Storage.tla does not predict, e.g. %s %s step %s (%s %s): %s' % (
+            len(divs), what, d.get('id'), d.get('step'), d.get('op'), d.get('name'), d.get('dirs')))
+
+
 def plain_objs(objs):
     """model state -> JSON-friendly {bucket: {name: data}}"""
     out = {}
@@ -141,6 +152,9 @@ def run(ctx):
         'newHandler rebuilt by the harness; a name is judged only if newHandler answers the same request with the same status; worker handlers '
         '(merge, chart, copy) take the recording buckets directly; resolution is lexical (no symbolic links in the storage root); listing prefixes '
         'are logged but not judged (a prefix filters names, it is never resolved as a path); on this platform a backslash is an ordinary character',
+        'the observer of every file-system comparison sees directories as well as files (below the storage root and up to three levels above it): a '
+        'directory created OUTSIDE root/<bucket>/ is a confinement violation; which directories exist INSIDE a bucket directory is not part of '
+        'the property (objects are): a surplus or missing one there is reported as a MODEL-DIVERGENCE warning and counted in divergences',
         'service names: the upload name is observed through the real upload handler chain, merge and chart names through the real worker '
         'handlers; only the location of what they create is decided here (C12 / C13 decide the rest)',
     ]
@@ -170,6 +184,7 @@ def run(ctx):
     ctx.cov['behaviour_steps'] = summ['steps']
     ctx.cov['evaluations'] += summ['steps']
     ctx.cov['traces_validated_against_impl'] += summ['matched']
+    note_divergences(ctx, recs, 'behaviour')
     for m in [x for x in recs if x.get('kind') == 'mismatch']:
         ctx.violation('C18:fsbucket:%s%s' % (m.get('what'), ':' + m['style'] if m.get('op') == 'write' and m.get('style') else ''), m,
                       'behaviour %s step %s (%s %s %s): real FSBucket differs from Storage.tla: %s' % (
@@ -195,6 +210,7 @@ def run(ctx):
     ctx.cov['writer_steps_with_two_open'] = nover
     ctx.cov['evaluations'] += summ['steps']
     ctx.cov['traces_validated_against_impl'] += summ['matched']
+    note_divergences(ctx, recs, 'writer-lifetime behaviour')
     for m in [x for x in recs if x.get('kind') == 'mismatch']:
         ctx.violation('C18:fsbucket:writers:%s' % m.get('what'), m,
                       'writer-lifetime behaviour %s step %s (%s %s %s): real FSBucket differs from StorageW.tla: %s' % (
@@ -327,7 +343,7 @@ def service_names(ctx):
     for m in recs:
         if m.get('kind') != 'step':
             continue
-        esc = [p for p in (m.get('created', []) + m.get('changed', []) + m.get('removed', [])) if not p.startswith(prefix)]
+        esc = [p for p in (m.get('created', []) + m.get('changed', []) + m.get('removed', []) + m.get('dirs_created', []) + m.get('dirs_removed', [])) if not p.startswith(prefix)]
         if esc:
             ctx.violation('C18:service-name:upload:outside-bucket', m, 'upload service created or changed %s outside its bucket directory' % esc)
         nup += len(m.get('created', []))
